@@ -153,6 +153,7 @@ func GetMerkleRoot(hashes [][]byte) []byte {
 	ch := make(chan *childstate, 10)
 	//pad to step
 	rem := len(hashes) % step
+	verifObserveStep(step)
 	l := len(hashes) / step
 	if rem != 0 {
 		l++
